@@ -621,7 +621,28 @@ def ae_cover(n):
     return fwd + [(j, i) for (i, j) in reversed(fwd)]
 
 
+def gen_ml_late_replicate(rng):
+    """Directed shape: a long-delayed Replicate of a superseded write arrives while the receiver is in the middle of
+    an anti-entropy reconcile loop that has already repaired that key (several keys, one store write each)."""
+    w = rng.choice([2000, 3000, 5000])
+    extra = rng.choice([2, 3])
+    ops, t, sent = [], 1000, []
+    for i, key in enumerate([0, 0] + list(range(1, extra + 1))):
+        ops.append([t, "W", 0, key, 100 + i, rng.random() < 0.5])
+        sent.append(t + w)                       # the Replicate leaves once the local store write is done
+        t += w + 1000
+    t_ae = t + 1000
+    ops.append([t_ae, "A", 0, 1, 100 + len(ops), False])
+    loop_start = t_ae + 100                      # AntiEntropyRequest delay 100
+    k = rng.randint(1, extra)                    # arrives during the store write of the (k+1)-th repaired key
+    arrive = loop_start + k * w + rng.choice([1, w // 2, w - 1])
+    delays = [arrive - sent[0]] + [200_000] * (len(sent) - 1) + [100] * 6
+    return dict(n=2, ops=ops, resolver=rng.choice(["lww", "vcm"]), wlat=[w, w], rlat=[500, 500], delays=delays, shape="late_replicate")
+
+
 def gen_ml(rng):
+    if rng.random() < 0.12:
+        return gen_ml_late_replicate(rng)
     n = rng.choice([2, 2, 3, 3, 4])
     nkeys = rng.choice([1, 1, 2, 3])
     ops = []
